@@ -404,6 +404,25 @@ def adversarial(rng, o: W, budget=None):
     return out
 
 
+def adversarial_pairs(rng, o: W):
+    """two neighbouring size / count / marker words of one fragment header corrupted together (e.g. total size AND header size 0):
+    consistency checks between two fields can hide what a single replacement cannot reach"""
+    base = o.w
+    n = len(base)
+    idx = [i for i in range(n) if structural(o.lab[i])]
+    out = []
+    for a, i in enumerate(idx):
+        for j in idx[a + 1:a + 3]:
+            if j - i > 2:
+                continue
+            rem = n - i
+            for v1, v2 in ((0, 0), (0, 1), (1, 0), (1, 1), (rem & M32, 0), (2, 2), (M32, M32)):
+                if (v1, v2) != (base[i], base[j]):
+                    w = list(base); w[i] = v1; w[j] = v2
+                    out.append(("replace-pair", o.lab[i] + "+" + o.lab[j], w))
+    return out
+
+
 def random_buffers(rng, k):
     out = []
     flags = [FULL_EVENT, SUB_DETECTOR, ROS, ROB, ROD, DATA_SEP, EVT_VERSION, 10, 3, 9, 0, 1, 2, 7, 17, 0xA10000, 0xA30000]
